@@ -236,8 +236,15 @@ def gen_warm_case(rng, base, idx):
     c = h.clusters[0]
     h.ngroups = rng.randint(1, 2)
     h.ntopics = rng.randint(2, 3)
+    # swap variant (every third case; seed C17-r5-1): the groups consume topics 1..n-1 completely and topic n not at all; topic 1
+    # is deleted, the warm read re-creates its series from the cached status, then the groups start on topic n with as many
+    # partitions - the fresh read after the cache lifetime has to drop topic 1's series although the series count has not shrunk
+    swap = idx % 3 == 0
+    if swap:
+        h.ntopics = 3
+        same = rng.randint(1, 2)
     for t in range(1, h.ntopics + 1):
-        h.cnt.setdefault((c, t), rng.randint(1, 3))
+        h.cnt.setdefault((c, t), same if swap else rng.randint(1, 3))
         h.dead[(c, t)] = set()
         for p in range(h.cnt[(c, t)]):
             h.broker(c, t, p)
@@ -246,7 +253,9 @@ def gen_warm_case(rng, base, idx):
     for g in range(1, h.ngroups + 1):
         for t in range(1, h.ntopics + 1):
             for p in range(h.cnt[(c, t)]):
-                if (c, t, p) in h.boff and (rng.random() < 0.8 or p == 0):
+                if swap and t == h.ntopics:
+                    continue
+                if (c, t, p) in h.boff and (swap or rng.random() < 0.8 or p == 0):
                     for _ in range(h.intervals if rng.random() < 0.7 else 1):
                         h.order += 1
                         h.now += 1
@@ -255,12 +264,12 @@ def gen_warm_case(rng, base, idx):
     h.add("XC", h.now, 1)
     h.add(rng.choice(["R", "RJ"]), h.now)
     kinds = []
-    for _ in range(rng.randint(1, 2)):
-        k = rng.choice(["DT", "DGtopic", "DGtopic", "DT", "DGall", "GG", "commit", "broker"])
+    for _ in range(1 if swap else rng.randint(1, 2)):
+        k = "DT" if swap else rng.choice(["DT", "DGtopic", "DGtopic", "DT", "DGall", "GG", "commit", "broker"])
         kinds.append(k)
         h.now += 1
         if k == "DT":
-            h.add("DT", h.now, c, rng.randint(1, h.ntopics))
+            h.add("DT", h.now, c, 1 if swap else rng.randint(1, h.ntopics))
         elif k == "DGtopic":
             h.add("DG", h.now, c, rng.randint(1, h.ngroups), rng.randint(1, h.ntopics))
         elif k == "DGall":
@@ -280,6 +289,15 @@ def gen_warm_case(rng, base, idx):
                 h.boff[(c, t, p)] = min(h.boff[(c, t, p)] + rng.choice([1, 10, 100]), 2 ** 63 - 1)
                 h.add("B", h.now, c, t, p, h.cnt[(c, t)], h.boff[(c, t, p)])
     h.add(rng.choice(["RW", "RW", "RJW"]), h.now)
+    if swap:
+        kinds.append("swap")
+        t = h.ntopics
+        for g in range(1, h.ngroups + 1):
+            for p in range(h.cnt[(c, t)]):
+                if (c, t, p) in h.boff:
+                    h.order += 1
+                    h.now += 1
+                    h.add("C", h.now, c, g, t, p, max(0, h.boff[(c, t, p)] - rng.choice([0, 3, 40])), h.order, h.now * 1000)
     h.add("SL", h.now, 1250)
     h.now += 2
     h.add(rng.choice(["RW", "RJW"]), h.now)
